@@ -12,9 +12,13 @@ class Bottom(YowLayer):
     def __init__(self):
         super(Bottom, self).__init__()
         self.sent = []
+        self.on_send = None     # one-shot hook: called with the stanza while the sender is still inside its send call
 
     def send(self, data):
         self.sent.append(data)
+        if self.on_send is not None:
+            cb, self.on_send = self.on_send, None
+            cb(data)
 
     def inject(self, data):
         """data arriving from below"""
